@@ -284,4 +284,79 @@ theorem newtonBatchRoot_padding_invariant (Nw : NewtonCfg α) (rep : α → XF) 
 
 end TreeNewton
 
+/-! ### round 3: entry-level form of the blocked mode products (C06 tiling) -/
+
+theorem forall₂_getElem {β γ : Type} {R : β → γ → Prop} : ∀ {l₁ : List β} {l₂ : List γ}, List.Forall₂ R l₁ l₂ →
+    ∀ (k : Nat) (h₁ : k < l₁.length) (h₂ : k < l₂.length), R l₁[k] l₂[k]
+  | _, _, .nil, k, h₁, _ => by simp at h₁
+  | _, _, .cons h t, 0, _, _ => h
+  | _, _, .cons h t, k + 1, h₁, h₂ => forall₂_getElem t k (by simpa using h₁) (by simpa using h₂)
+
+/-- entry of `merge_partitions` of blocks transformed by a shape-preserving per-block function -/
+theorem merge_blockFn_entry {α : Type} [Inhabited α] (t : Tensor α) (b : Nat) (blockFn : Nat → Tensor α → Tensor α)
+    (hshape : ∀ k (hk : k < (partition t b).length), (blockFn k (partition t b)[k]).shape = (partition t b)[k].shape)
+    (idx : List Nat) (hi : inBounds t.shape idx) :
+    ∃ u, mergePartitions t.shape b ((partition t b).zipIdx.map fun gb => blockFn gb.2 gb.1) = some u ∧
+      u.shape = t.shape ∧
+      ∃ hk : (locateBlock t.shape b idx).1 < (partition t b).length,
+        u.get idx = (blockFn (locateBlock t.shape b idx).1 ((partition t b)[(locateBlock t.shape b idx).1])).get
+          (locateBlock t.shape b idx).2 := by
+  set parts := (partition t b).zipIdx.map fun gb => blockFn gb.2 gb.1 with hparts
+  have hlen : parts.length = (partition t b).length := by simp [hparts]
+  have hget : ∀ k (hk : k < (partition t b).length), parts[k]'(by rw [hlen]; exact hk) = blockFn k (partition t b)[k] := by
+    intro k hk; simp [hparts]
+  have hshapes : parts.map (·.shape) = cartesian (splitAll t.shape b) := by
+    rw [← (C06.precond_shapes_agree_with_blocks .all 0 t b).1]
+    apply List.ext_getElem
+    · simp [hlen]
+    · intro k h1 h2
+      have hk : k < (partition t b).length := by simpa using h2
+      simp only [List.getElem_map]
+      rw [hget k hk, hshape k hk]
+  obtain ⟨u, hu, hus, hF⟩ := C06.partition_merge_id t.shape b parts hshapes
+  obtain ⟨hk, hj, haddr, _⟩ := C06.partition_blocks_tile t.shape b idx hi
+  have hkt : (locateBlock t.shape b idx).1 < (partition t b).length := by rw [C06.partition_count_grid]; exact hk
+  have hku : (locateBlock t.shape b idx).1 < (partition u b).length := by rw [C06.partition_count_grid, hus]; exact hk
+  refine ⟨u, hu, hus, hkt, ?_⟩
+  obtain ⟨c1, c2, _⟩ := C06.partition_contiguous u b _ hku
+  have hE := forall₂_getElem hF _ hku (by rw [hlen]; exact hkt)
+  rw [hus] at c1 c2
+  have hjl : (locateBlock t.shape b idx).2.length = t.shape.length := by
+    have := inBounds_length hj
+    rw [this]; simp [blockDims, blockCoords, unravel_length_eq, blockGrid_length]
+  rw [← hget _ hkt, ← hE.2 _ (by rw [c1]; exact hj), c2 _ hjl, haddr]
+
+
+section DSEntry
+variable {α : Type} [Add α] [Mul α] [OfNat α 0] [Inhabited α]
+
+theorem specSlots_slotMats_length (P : List (Mx α)) (pt : PType) (rank b : Nat) :
+    (slotMats P Mx.zero (specSlots pt rank b)).length = rank := by
+  simp [slotMats, specSlots]
+
+/-- entry-level form of C02's `specPrecondGrad` -/
+theorem ds_precond_grad_entry (G : Geom) (P : List (Mx α)) (g : List α) (idx : List Nat) (hi : inBounds G.tshape idx) :
+    ∃ u : Tensor α, specPrecondGrad G P g = some ((u.reshape G.shape).flat) ∧ u.shape = G.tshape ∧
+      ∃ hk : (locateBlock G.tshape G.block idx).1 < (G.blocks g).length,
+        u.get idx =
+          (specBlock ((G.blocks g)[(locateBlock G.tshape G.block idx).1])
+            (slotMats P Mx.zero (specSlots G.ptype G.rank (locateBlock G.tshape G.block idx).1))).get
+            (locateBlock G.tshape G.block idx).2 := by
+  obtain ⟨u, hu, hus, hk, hget⟩ := merge_blockFn_entry ((ofFlat G.shape g).reshape G.tshape) G.block
+    (fun b gb => specBlock gb (slotMats P Mx.zero (specSlots G.ptype G.rank b)))
+    (fun k hk => by
+      apply (lowBlock_eq_specBlock _ _ _).2.1
+      rw [specSlots_slotMats_length]
+      exact (C06.precond_shapes_agree_with_blocks .all 0 _ G.block).2.2.1 _ (List.getElem_mem hk) |>.symm)
+    idx hi
+  refine ⟨u, ?_, hus, hk, hget⟩
+  unfold specPrecondGrad precondGradWith Geom.assemble
+  show (mergePartitions G.tshape G.block _).map _ = _
+  have : mergePartitions G.tshape G.block
+      ((G.blocks g).zipIdx.map fun gb => specBlock gb.1 (slotMats P Mx.zero (specSlots G.ptype G.rank gb.2))) = some u := hu
+  rw [this]; rfl
+
+end DSEntry
+
+
 end PrecondVerif.Compose
